@@ -223,6 +223,7 @@ func (x *c12exec) run(e common.Env, p *common.Part) *c12fail {
 	for oi, op := range h.Ops {
 		script := c12script
 		script.InitHook = func(uint16) { x.hook("backend.init") }
+		script.RunHook = func(uint16) { x.hook("backend.run") }
 		x.c.NextSession(&script)
 		from := x.c.logPos()
 		fail := func(sig, what string, wd bool) *c12fail {
@@ -699,8 +700,9 @@ func (x *c12exec) run(e common.Env, p *common.Part) *c12fail {
 			ctx, cancel := context.WithTimeout(context.Background(), x.dl(6000))
 			var dupErr error
 			var dupDone sync.WaitGroup
-			// hold everybody's continuation at the start so that the first session is certainly live when the duplicate arrives
-			x.setHold("sign.afterPrepare")
+			// hold everybody's continuation so that the first session is certainly live when the duplicate arrives: during its set-up,
+			// or - every second time - at the start of its protocol phase (all synchronisations done, the protocol call has begun)
+			x.setHold([]string{"sign.afterPrepare", "backend.run"}[op.Arg%2])
 			done := make(chan map[uint16]callRes, 1)
 			go func() { done <- x.calls(s, func(u uint16) ([]byte, error) { return x.sign(ctx, u, op.Topic) }) }()
 			x.waitParked(len(s), x.dl(3000))
